@@ -671,6 +671,7 @@ func (s *SendMessageWithRetryAction) Execute(services *SwapServices, swap *SwapD
     if isdev.FastTests() {
         retryDur = 1 * time.Second
     }
+	retryDur = verifRetransmitInterval(retryDur)
     rm := messages.NewRedundantMessenger(services.messenger, retryDur)
 	err := services.messengerManager.AddSender(swap.GetId().String(), rm)
 	if err != nil {
@@ -941,6 +942,7 @@ func (p *ValidateTxAndPayClaimInvoiceAction) Execute(services *SwapServices, swa
 		}
 		interval = 1 * time.Second
 	}
+	retryTime, interval = verifPayTiming(retryTime, interval)
 
 	ticker := time.NewTicker(interval)
 	defer ticker.Stop()
